@@ -50,8 +50,10 @@ func ConfigYAML(sc *world.Scenario, w *world.World) string {
 			p("      setPwm:")
 			p("        exec: %s", st.SetPwmExe)
 			p("        args: [\"%%pwm%%\"]")
-			p("      getPwm:")
-			p("        exec: %s", st.GetPwmExe)
+			if !f.NoGetPwm {
+				p("      getPwm:")
+				p("        exec: %s", st.GetPwmExe)
+			}
 			if st.GetRpmExe != "" {
 				p("      getRpm:")
 				p("        exec: %s", st.GetRpmExe)
@@ -96,6 +98,8 @@ func ConfigYAML(sc *world.Scenario, w *world.World) string {
 			p("        d: %v", f.Algo.D)
 		case "pidword":
 			p("    controlAlgorithm: pid")
+		case "directword":
+			p("    controlAlgorithm: direct")
 		case "legacy":
 			p("    controlLoop:")
 			p("      p: %v", f.Algo.P)
